@@ -533,7 +533,7 @@ class CooperativeTask:
         except BaseException:
             self._completeWith(TaskFailed(), Failure())
         else:
-            if isinstance(result, Deferred):
+            if isinstance(result, Deferred) and self._completionState is None:
                 self.pause()
 
                 def failLater(failure: Failure) -> None:
